@@ -1,7 +1,1748 @@
-//! C19: correspondence + oracle runs (sub-commands `c19` / `c19-*`).
+//! C19 (a network description means what it says) and the NDL clause of C14 (no text makes the
+//! description parser panic), on the REAL `core_parser` / `general_parser` / generator.
+//!
+//! Sub-commands
+//!   `c19-parse`  generated description trees rendered in three layouts (tabs / 4 spaces / CRLF),
+//!                parsed by the real `core_parser` from a temp file under `--out`; the resulting
+//!                `Sim` is dumped canonically (map entries sorted) and compared (a) with the
+//!                tree it was rendered from (native oracle) and (b) with the Lean model's parse
+//!                of the same text (diff).  Structural-error mutants (wrong nesting depth, unknown
+//!                type, missing section, duplicate id, duplicate argument) must be rejected.
+//!   `c14-ndl`    mutated texts (token insertion/deletion/truncation, indentation changes with
+//!                tabs / 4 spaces / mixed, CRLF, non-ASCII near the byte-index slices); oracle:
+//!                the outcome is a value or an `Err`, never a panic; outcome class (value /
+//!                error kind / panic site) diffed against the model.
+//!   `c19-run`    semantically valid descriptions built, run on a paused-clock runtime in worker
+//!                child processes, captures inspected afterwards (see the second half).
+//!
+//! Op lines (driver `Driver/C19.lean`)
+//!   `render <layout> <simspec…>`   -> `text <hex utf-8>`
+//!   `parse <hex utf-8>`            -> `ok <dump>` | `err <kind>[ <line>]` | `panic <site>`
+//!   `lex <line_num> <hex utf-8>`   -> `ok <Type> P<k> … rest=<hex> line=<n>` | `err …` | `panic …`
+//!   `run <simspec…>`               -> `expect status=… <capture deliveries>`
+use crate::scaffold::*;
+use elvis::ndl::core_parser;
+use elvis::ndl::parsing::parsing_data as pd;
+use elvis::ndl::parsing::verif::general_parser;
 use hcommon::*;
+use std::collections::HashMap;
+use std::path::{Path, PathBuf};
+
+// ------------------------------------------------------------------------------------------
+// description trees
+// ------------------------------------------------------------------------------------------
+
+type Opts = Vec<(String, String)>;
+
+#[derive(Clone, Debug, PartialEq)]
+pub struct Leaf {
+    pub dt: String,
+    pub opts: Opts,
+}
+#[derive(Clone, Debug, PartialEq)]
+pub struct Net {
+    pub opts: Opts,
+    pub ips: Vec<Leaf>,
+}
+#[derive(Clone, Debug, PartialEq)]
+pub struct Mach {
+    pub opts: Opts,
+    pub nets: Vec<Leaf>,
+    pub prots: Vec<Leaf>,
+    pub apps: Vec<Leaf>,
+}
+#[derive(Clone, Debug, PartialEq, Default)]
+pub struct Tree {
+    pub nets: Vec<Net>,
+    pub machs: Vec<Mach>,
+}
+
+fn hx(s: &str) -> String {
+    hex(s.as_bytes())
+}
+fn unhx(s: &str) -> Option<String> {
+    String::from_utf8(unhex(s)).ok()
+}
+
+fn opts_tokens(o: &Opts, sorted: bool, out: &mut Vec<String>) {
+    let mut v: Vec<(String, String)> = o.iter().map(|(k, v)| (hx(k), hx(v))).collect();
+    if sorted {
+        v.sort();
+    }
+    out.push(format!("P{}", v.len()));
+    for (k, v) in v {
+        out.push(format!("{}={}", k, v));
+    }
+}
+fn leaves_tokens(tag: &str, ls: &[Leaf], sorted: bool, out: &mut Vec<String>) {
+    out.push(format!("{}{}", tag, ls.len()));
+    for l in ls {
+        out.push(l.dt.clone());
+        opts_tokens(&l.opts, sorted, out);
+    }
+}
+fn get<'a>(o: &'a Opts, k: &str) -> Option<&'a str> {
+    o.iter().find(|e| e.0 == k).map(|e| e.1.as_str())
+}
+
+impl Tree {
+    /// token form shared by the `render`/`run` op lines (in order) and the canonical dump
+    /// (`sorted`: map entries by key bytes, networks by id)
+    fn tokens(&self, sorted: bool) -> String {
+        let mut out = vec![];
+        let mut nets: Vec<(String, &Net)> = self.nets.iter().map(|n| (hx(get(&n.opts, "id").unwrap_or("")), n)).collect();
+        if sorted {
+            nets.sort_by(|a, b| a.0.cmp(&b.0));
+        }
+        out.push(format!("N{}", nets.len()));
+        for (id, n) in nets {
+            out.push("net".into());
+            out.push(id);
+            out.push("Network".into());
+            opts_tokens(&n.opts, sorted, &mut out);
+            leaves_tokens("I", &n.ips, sorted, &mut out);
+        }
+        out.push(format!("M{}", self.machs.len()));
+        for m in &self.machs {
+            out.push("mach".into());
+            out.push("Machine".into());
+            opts_tokens(&m.opts, sorted, &mut out);
+            leaves_tokens("n", &m.nets, sorted, &mut out);
+            leaves_tokens("p", &m.prots, sorted, &mut out);
+            leaves_tokens("a", &m.apps, sorted, &mut out);
+        }
+        out.join(" ")
+    }
+
+    fn from_tokens(toks: &[&str]) -> Option<Tree> {
+        struct P<'a> {
+            t: &'a [&'a str],
+            i: usize,
+        }
+        impl<'a> P<'a> {
+            fn next(&mut self) -> Option<&'a str> {
+                let x = self.t.get(self.i).copied();
+                self.i += 1;
+                x
+            }
+            fn count(&mut self, tag: &str) -> Option<usize> {
+                self.next()?.strip_prefix(tag)?.parse().ok()
+            }
+            fn opts(&mut self) -> Option<Opts> {
+                let n = self.count("P")?;
+                let mut o = vec![];
+                for _ in 0..n {
+                    let (k, v) = self.next()?.split_once('=')?;
+                    o.push((unhx(k)?, unhx(v)?));
+                }
+                Some(o)
+            }
+            fn leaves(&mut self, tag: &str) -> Option<Vec<Leaf>> {
+                let n = self.count(tag)?;
+                let mut ls = vec![];
+                for _ in 0..n {
+                    let dt = self.next()?.to_string();
+                    ls.push(Leaf { dt, opts: self.opts()? });
+                }
+                Some(ls)
+            }
+        }
+        let mut p = P { t: toks, i: 0 };
+        let mut t = Tree::default();
+        for _ in 0..p.count("N")? {
+            p.next()?; // net
+            p.next()?; // id
+            p.next()?; // Network
+            let opts = p.opts()?;
+            t.nets.push(Net { opts, ips: p.leaves("I")? });
+        }
+        for _ in 0..p.count("M")? {
+            p.next()?;
+            p.next()?;
+            let opts = p.opts()?;
+            t.machs.push(Mach { opts, nets: p.leaves("n")?, prots: p.leaves("p")?, apps: p.leaves("a")? });
+        }
+        Some(t)
+    }
+}
+
+// ------------------------------------------------------------------------------------------
+// rendering (independent re-implementation of `Elvis.Ndl.render`; the two are diffed)
+// ------------------------------------------------------------------------------------------
+
+#[derive(Clone, Copy, PartialEq, Debug)]
+pub enum Layout {
+    Tabs,
+    Spaces,
+    Crlf,
+}
+impl Layout {
+    fn name(self) -> &'static str {
+        match self {
+            Layout::Tabs => "tabs",
+            Layout::Spaces => "spaces",
+            Layout::Crlf => "crlf",
+        }
+    }
+    fn parse(s: &str) -> Option<Layout> {
+        Some(match s {
+            "tabs" => Layout::Tabs,
+            "spaces" => Layout::Spaces,
+            "crlf" => Layout::Crlf,
+            _ => return None,
+        })
+    }
+}
+const LAYOUTS: [Layout; 3] = [Layout::Tabs, Layout::Spaces, Layout::Crlf];
+
+fn render_line(lay: Layout, depth: usize, dt: &str, opts: &Opts, out: &mut String) {
+    for _ in 0..depth {
+        out.push_str(if lay == Layout::Spaces { "    " } else { "\t" });
+    }
+    out.push('[');
+    out.push_str(dt);
+    for (k, v) in opts {
+        out.push(' ');
+        out.push_str(k);
+        out.push_str("='");
+        out.push_str(v);
+        out.push('\'');
+    }
+    out.push(']');
+    out.push_str(if lay == Layout::Crlf { "\r\n" } else { "\n" });
+}
+
+pub fn render(lay: Layout, t: &Tree) -> String {
+    let mut s = String::new();
+    render_line(lay, 0, "Networks", &vec![], &mut s);
+    for n in &t.nets {
+        render_line(lay, 1, "Network", &n.opts, &mut s);
+        for ip in &n.ips {
+            render_line(lay, 2, &ip.dt, &ip.opts, &mut s);
+        }
+    }
+    render_line(lay, 0, "Machines", &vec![], &mut s);
+    for m in &t.machs {
+        render_line(lay, 1, "Machine", &m.opts, &mut s);
+        for (name, ls) in [("Networks", &m.nets), ("Protocols", &m.prots), ("Applications", &m.apps)] {
+            render_line(lay, 2, name, &vec![], &mut s);
+            for l in ls {
+                render_line(lay, 3, &l.dt, &l.opts, &mut s);
+            }
+        }
+    }
+    s
+}
+
+// ------------------------------------------------------------------------------------------
+// the real parser: outcome classes
+// ------------------------------------------------------------------------------------------
+
+fn sim_to_tree(s: &pd::Sim) -> (Tree, bool) {
+    let opts = |p: &HashMap<String, String>| -> Opts { p.iter().map(|(k, v)| (k.clone(), v.clone())).collect() };
+    let mut ok = true;
+    let mut t = Tree::default();
+    for (id, n) in &s.networks {
+        // the map key is the value of the `id` argument
+        if n.options.get("id") != Some(id) || n.dectype != pd::DecType::Network {
+            ok = false;
+        }
+        t.nets.push(Net { opts: opts(&n.options), ips: n.ip.iter().map(|l| Leaf { dt: format!("{:?}", l.dectype), opts: opts(&l.options) }).collect() });
+    }
+    for m in &s.machines {
+        let o = match &m.options {
+            Some(p) => opts(p),
+            None => {
+                ok = false;
+                vec![]
+            }
+        };
+        if m.dectype != pd::DecType::Machine {
+            ok = false;
+        }
+        t.machs.push(Mach {
+            opts: o,
+            nets: m.interfaces.networks.iter().map(|l| Leaf { dt: format!("{:?}", l.dectype), opts: opts(&l.options) }).collect(),
+            prots: m.interfaces.protocols.iter().map(|l| Leaf { dt: format!("{:?}", l.dectype), opts: opts(&l.options) }).collect(),
+            apps: m.interfaces.applications.iter().map(|l| Leaf { dt: format!("{:?}", l.dectype), opts: opts(&l.options) }).collect(),
+        });
+    }
+    (t, ok)
+}
+
+/// error message -> (kind, line reported by the lexer's own messages).  Every error path of the
+/// parser produces exactly one innermost message; wrappers only add "Unable to parse inside of".
+fn classify(msg: &str) -> (String, Option<i64>) {
+    let line_before = |pat: &str| -> Option<i64> {
+        let at = msg.find(pat)?;
+        let head = &msg[..at];
+        let l = head.rfind("Line ")?;
+        head[l + 5..].trim_end_matches(": ").trim().parse().ok()
+    };
+    let pats: [(&str, &str); 13] = [
+        ("VerboseError { errors: [(\"", "nom"),
+        ("extra argument at '", "extraArg"),
+        ("duplicate argument '", "dupArg"),
+        ("Invalid tab count. Expected", "tabs"),
+        (" tabs instead.", "expectedTabs"),
+        ("Invalid formatting", "formatting"),
+        (": expected type ", "wrongType"),
+        ("Unexpected type ", "unexpected"),
+        ("Cannot declare ", "cannotDeclare"),
+        ("due to duplicate id", "dupId"),
+        ("due to missing id", "missingId"),
+        ("Failed to include all required types", "required"),
+        ("unable to parse arguments", "argsFail"),
+    ];
+    // a nom error is always innermost and echoes the rest of the file: test it first; then the
+    // two lexer messages that echo argument text
+    for (pat, kind) in pats.iter() {
+        if msg.contains(pat) {
+            return match *kind {
+                "extraArg" => (kind.to_string(), line_before(": extra argument at '")),
+                "dupArg" => (kind.to_string(), line_before(": duplicate argument '")),
+                "nom" => {
+                    // section: the context stack ends in Context("section"); get_type: "dectype"
+                    if msg.contains("Context(\"section\")") {
+                        ("section".into(), None)
+                    } else if msg.contains("Context(\"dectype\")") {
+                        ("dectype".into(), None)
+                    } else {
+                        ("nom-other".into(), None)
+                    }
+                }
+                k => (k.to_string(), None),
+            };
+        }
+    }
+    ("unclassified".into(), None)
+}
+
+fn panic_site(p: &PanicInfo) -> (String, String) {
+    let text = source_line_text(&p.file, p.line);
+    let f = p.file.rsplit('/').next().unwrap_or("").to_string();
+    if p.file.ends_with("str/mod.rs") && p.msg.contains("is not a char boundary") {
+        // str::split_at called by nom's `take_split` (no #[track_caller]: located in core)
+        return ("tagSplit".into(), "panic nom tag_no_case take_split: byte index is not a char boundary".into());
+    }
+    let site = if text.contains("unimplemented!(\"No other dec types supported\")") {
+        "decTypeFrom".to_string()
+    } else if f == "traits.rs" && text.contains("self.split_at(count)") {
+        "tagSplit".to_string()
+    } else if text.contains("remaining_string[num_tabs as usize..]") {
+        "sliceTabs".to_string()
+    } else if text.contains("remaining_string[num_new_line..]") {
+        "sliceNewlines".to_string()
+    } else if text.contains("*line_num += num_new_line as i32") {
+        "lineOverflow".to_string()
+    } else if text.contains("req.iter().position(") {
+        "reqPosition".to_string()
+    } else {
+        format!("other:{}:{}", f, text.replace(' ', "_"))
+    };
+    (site, format!("panic {} {}", f, text))
+}
+
+pub enum Outcome {
+    Ok(Tree, bool),
+    Err(String, Option<i64>, String),
+    Panic(String, String, String),
+}
+impl Outcome {
+    fn line(&self) -> String {
+        match self {
+            Outcome::Ok(t, wf) => format!("ok {}{}", t.tokens(true), if *wf { "" } else { " !shape" }),
+            Outcome::Err(k, Some(l), _) => format!("err {} {}", k, l),
+            Outcome::Err(k, None, _) => format!("err {}", k),
+            Outcome::Panic(site, _, _) => format!("panic {}", site),
+        }
+    }
+    fn class(&self) -> &'static str {
+        match self {
+            Outcome::Ok(..) => "ok",
+            Outcome::Err(..) => "err",
+            Outcome::Panic(..) => "panic",
+        }
+    }
+}
+
+pub struct Files {
+    dir: PathBuf,
+    n: u64,
+}
+impl Files {
+    fn new(out: &Path) -> Files {
+        let dir = out.join("ndl-tmp");
+        std::fs::create_dir_all(&dir).unwrap();
+        Files { dir, n: 0 }
+    }
+    fn write(&mut self, text: &str) -> String {
+        self.n += 1;
+        let p = self.dir.join(format!("d{}.ndl", self.n % 64));
+        std::fs::write(&p, text.as_bytes()).unwrap();
+        p.to_string_lossy().to_string()
+    }
+}
+
+/// the real `core_parser` on `text` (through a temp file, as the code reads it)
+fn real_parse(files: &mut Files, text: &str) -> Outcome {
+    let path = files.write(text);
+    match catch(|| core_parser(path.clone())) {
+        Ok(Ok(sim)) => {
+            let (t, wf) = sim_to_tree(&sim);
+            Outcome::Ok(t, wf)
+        }
+        Ok(Err(msg)) => {
+            let (k, l) = classify(&msg);
+            Outcome::Err(k, l, msg)
+        }
+        Err(p) => {
+            let (site, ident) = panic_site(&p);
+            Outcome::Panic(site, ident, p.msg)
+        }
+    }
+}
+
+fn real_lex(text: &str, line: i32) -> String {
+    let mut ln = line;
+    match catch(|| {
+        let r = general_parser(text, &mut ln);
+        (r, ln)
+    }) {
+        Ok((Ok((dt, params, rest)), ln)) => {
+            let mut toks = vec![format!("{:?}", dt)];
+            let o: Opts = params.into_iter().collect();
+            opts_tokens(&o, true, &mut toks);
+            format!("ok {} rest={} line={}", toks.join(" "), hx(&rest), ln)
+        }
+        Ok((Err(msg), _)) => {
+            let (k, l) = classify(&msg);
+            match l {
+                Some(l) => format!("err {} {}", k, l),
+                None => format!("err {}", k),
+            }
+        }
+        Err(p) => format!("panic {}", panic_site(&p).0),
+    }
+}
+
+// ------------------------------------------------------------------------------------------
+// generators
+// ------------------------------------------------------------------------------------------
+
+/// characters the grammar can carry inside a key (no `=`, no `]`); a key must not *start*
+/// with a separator (a char whose low byte is space / tab / newline)
+const KEY_CHARS: &[&str] = &["a", "b", "k", "K", "z", "0", "9", "-", "_", ".", " ", "'", "\"", "\\", "[", "\t", "\n", "é", "名", "😀", "\u{212A}", "\u{120}", "\u{10A}", "\u{109}", "\u{301}", ":", "/"];
+/// characters a value can carry (no `]`, no bare `'`, no `\` other than in `\'`)
+const VAL_CHARS: &[&str] = &["a", "b", "H", "e", "l", "o", "!", "0", "1", "5", ".", "-", "_", " ", " ", "=", "[", "\"", "\\'", "\t", "\n", "é", "名", "😀", "\u{212A}", "\u{120}", "\u{10A}", ":", "/", "x", ","];
+const REAL_KEYS: &[&str] = &["id", "name", "ip", "range", "subnet", "count", "to", "port", "message", "message_count", "type", "factory", "local_port", "remote_port", "starter", "auto-protocol", "local", "default"];
+const REAL_VALS: &[&str] = &["1", "5", "IPv4", "UDP", "ARP", "send_message", "capture", "forward", "ping_pong", "123.45.67.89-91", "192.168.1.121", "0xbeef", "Hello this is an awesome test message!", "true", "recv1", "12.34.56.89/24", ""];
+
+fn is_sep(c: char) -> bool {
+    let b = (c as u32 % 256) as u8;
+    b == b' ' || b == b'\t' || b == b'\n'
+}
+
+/// no run of four spaces may arise (the parser rewrites it), no CR
+fn calm(s: &str) -> bool {
+    !s.contains("    ") && !s.contains('\r')
+}
+
+fn gen_key(rng: &mut Rng, exotic: bool) -> String {
+    if rng.chance(3, 5) || !exotic {
+        return rng.pick(REAL_KEYS).to_string();
+    }
+    loop {
+        let n = rng.range(0, 6);
+        let mut s = String::new();
+        for _ in 0..n {
+            s.push_str(*rng.pick(KEY_CHARS));
+        }
+        if s.chars().next().map_or(true, |c| !is_sep(c)) && calm(&s) {
+            return s;
+        }
+    }
+}
+
+fn gen_val(rng: &mut Rng, exotic: bool) -> String {
+    if !exotic {
+        // no newline, no `[`: line-oriented structural edits stay meaningful
+        let n = rng.range(0, 8);
+        return (0..n).map(|_| *rng.pick(&["a", "b", "7", ".", "-", " ", "=", "é", "\\'"])).collect::<String>().replace("    ", " ");
+    }
+    if rng.chance(2, 5) {
+        return rng.pick(REAL_VALS).to_string();
+    }
+    loop {
+        let n = rng.range(0, 10);
+        let mut s = String::new();
+        for _ in 0..n {
+            s.push_str(*rng.pick(VAL_CHARS));
+        }
+        if calm(&s) {
+            return s;
+        }
+    }
+}
+
+fn gen_opts(rng: &mut Rng, max: u64, must: &[(&str, String)], exotic: bool) -> Opts {
+    let mut o: Opts = must.iter().map(|(k, v)| (k.to_string(), v.clone())).collect();
+    for _ in 0..rng.range(0, max) {
+        let k = gen_key(rng, exotic);
+        if get(&o, &k).is_none() {
+            o.push((k, gen_val(rng, exotic)));
+        }
+    }
+    // HashMap iteration order is arbitrary: shuffle
+    for i in (1..o.len()).rev() {
+        let j = rng.below(i as u64 + 1) as usize;
+        o.swap(i, j);
+    }
+    o
+}
+
+fn gen_leaves(rng: &mut Rng, dt: &str, max: u64, exotic: bool) -> Vec<Leaf> {
+    (0..rng.range(1, max)).map(|_| Leaf { dt: dt.into(), opts: gen_opts(rng, 4, &[], exotic) }).collect()
+}
+
+/// syntactically well-formed tree with arbitrary (grammar-expressible) keys and values
+pub fn gen_tree(rng: &mut Rng, exotic: bool) -> Tree {
+    let mut t = Tree::default();
+    let mut ids: Vec<String> = vec![];
+    for _ in 0..rng.range(0, 4) {
+        let id = loop {
+            let v = if rng.chance(2, 3) { rng.range(0, 9).to_string() } else { gen_val(rng, exotic) };
+            if !ids.contains(&v) {
+                break v;
+            }
+        };
+        ids.push(id.clone());
+        t.nets.push(Net { opts: gen_opts(rng, 2, &[("id", id)], exotic), ips: gen_leaves(rng, "IP", 4, exotic) });
+    }
+    for _ in 0..rng.range(0, 4) {
+        t.machs.push(Mach {
+            opts: gen_opts(rng, 3, &[], exotic),
+            nets: gen_leaves(rng, "Network", 3, exotic),
+            prots: gen_leaves(rng, "Protocol", 3, exotic),
+            apps: gen_leaves(rng, "Application", 3, exotic),
+        });
+    }
+    t
+}
+
+// ---- text mutations -------------------------------------------------------------------------
+
+const TOKENS: &[&str] = &[
+    "[", "]", "'", "=", "\\", "\\'", " ", "\t", "    ", "   ", "\n", "\r\n", "\r", "[]", "[ ]", "''", "='", "x='1'", " x='1'", "id='1'", " id='1'",
+    "Template", "Networks", "Network", "IPtype", "IP", "Machines", "Machine", "Protocols", "Protocol", "Applications", "Application", "Router", "ip",
+    "[Template]", "[Networks]", "[Network id='1']", "[IP range='1.2.3.4-5']", "[IPtype v='4']", "[Machines]", "[Machine]", "[Protocols]", "[Protocol name='UDP']",
+    "[Applications]", "[Application name='capture']",
+    "\u{212A}", "Networ\u{212A}s", "Networ\u{212A}", "\u{130}P", "\u{17F}", "Protocol\u{17F}", "\u{120}", "\u{10A}", "\u{109}", "é", "名", "😀", "\u{301}", "\u{0}", "\u{feff}",
+];
+
+fn char_starts(s: &str) -> Vec<usize> {
+    let mut v: Vec<usize> = s.char_indices().map(|(i, _)| i).collect();
+    v.push(s.len());
+    v
+}
+
+fn line_spans(s: &str) -> Vec<(usize, usize)> {
+    // (start, end incl. the newline)
+    let mut v = vec![];
+    let mut a = 0;
+    for (i, c) in s.char_indices() {
+        if c == '\n' {
+            v.push((a, i + 1));
+            a = i + 1;
+        }
+    }
+    if a < s.len() {
+        v.push((a, s.len()));
+    }
+    v
+}
+
+/// one random edit; returns its label
+fn mutate_once(rng: &mut Rng, s: &mut String) -> &'static str {
+    let starts = char_starts(s);
+    let lines = line_spans(s);
+    let pick_pos = |rng: &mut Rng| -> usize { starts[rng.below(starts.len() as u64) as usize] };
+    match rng.below(16) {
+        0 | 1 => {
+            let p = pick_pos(rng);
+            s.insert_str(p, *rng.pick(TOKENS));
+            "insert-token"
+        }
+        2 => {
+            // delete one char
+            if starts.len() > 1 {
+                let i = rng.below(starts.len() as u64 - 1) as usize;
+                s.replace_range(starts[i]..starts[i + 1], "");
+            }
+            "delete-char"
+        }
+        3 => {
+            // delete one occurrence of a structural token
+            let tok = *rng.pick(&["[", "]", "'", "=", "\t", "\n", " ", "Networks", "Network", "IP", "Machines", "Machine", "Protocols", "Applications"]);
+            let occ: Vec<usize> = s.match_indices(tok).map(|(i, _)| i).collect();
+            if !occ.is_empty() {
+                let i = *rng.pick(&occ);
+                s.replace_range(i..i + tok.len(), "");
+            }
+            "delete-token"
+        }
+        4 => {
+            let p = pick_pos(rng);
+            s.truncate(p);
+            "truncate"
+        }
+        5 => {
+            // indentation of one line: add / remove a level, in tabs or spaces
+            if !lines.is_empty() {
+                let (a, _) = *rng.pick(&lines);
+                match rng.below(5) {
+                    0 => s.insert(a, '\t'),
+                    1 => s.insert_str(a, "    "),
+                    2 => s.insert_str(a, *rng.pick(&["  ", "   ", "     ", " \t", "\t "])),
+                    _ => {
+                        if s[a..].starts_with('\t') {
+                            s.replace_range(a..a + 1, "");
+                        } else if s[a..].starts_with("    ") {
+                            s.replace_range(a..a + 4, "");
+                        }
+                    }
+                }
+            }
+            "indent-line"
+        }
+        6 => {
+            // re-indent everything: tabs <-> 4 spaces <-> mixed
+            let mode = rng.below(3);
+            let mut o = String::new();
+            for (a, b) in &lines {
+                let l = &s[*a..*b];
+                let body = l.trim_start_matches('\t');
+                let d = l.len() - body.len();
+                for k in 0..d {
+                    match mode {
+                        0 => o.push_str("    "),
+                        1 => o.push_str(if k % 2 == 0 { "    " } else { "\t" }),
+                        _ => o.push_str(if rng.chance(1, 2) { "    " } else { "\t" }),
+                    }
+                }
+                o.push_str(body);
+            }
+            *s = o;
+            "reindent-all"
+        }
+        7 => {
+            *s = s.replace('\n', "\r\n");
+            "crlf"
+        }
+        8 => {
+            // duplicate / delete / swap lines
+            if lines.len() >= 2 {
+                let i = rng.below(lines.len() as u64) as usize;
+                let (a, b) = lines[i];
+                let l = s[a..b].to_string();
+                match rng.below(3) {
+                    0 => s.insert_str(a, &l),
+                    1 => s.replace_range(a..b, ""),
+                    _ => {
+                        let j = rng.below(lines.len() as u64) as usize;
+                        let (c, _) = lines[j];
+                        s.replace_range(a..b, "");
+                        let c = if c > a { c - (b - a) } else { c };
+                        s.insert_str(c.min(s.len()), &l);
+                    }
+                }
+            }
+            "line-dup-del-move"
+        }
+        9 => {
+            // replace a type tag by another word
+            let tags = ["Template", "Networks", "Network", "IP", "Machines", "Machine", "Protocols", "Protocol", "Applications", "Application"];
+            let occ: Vec<(usize, &str)> = tags.iter().flat_map(|t| s.match_indices(&format!("[{}", t)).map(|(i, _)| (i + 1, *t)).collect::<Vec<_>>()).collect();
+            if !occ.is_empty() {
+                let (i, t) = *rng.pick(&occ);
+                let rep = *rng.pick(&["Template", "Networks", "Network", "IPtype", "IP", "Machines", "Machine", "Protocols", "Protocol", "Applications", "Application", "Router", "networ\u{212A}s", "NETWORKS", "nEtWoRk", "iptype", "Ip", "", "Net"]);
+                s.replace_range(i..i + t.len(), rep);
+            }
+            "retag"
+        }
+        10 => {
+            // flip ASCII case of a stretch
+            let p = pick_pos(rng);
+            let q = (p + rng.range(1, 12) as usize).min(s.len());
+            let q = *starts.iter().find(|x| **x >= q).unwrap_or(&s.len());
+            let seg: String = s[p..q].chars().map(|c| if c.is_ascii_lowercase() { c.to_ascii_uppercase() } else { c.to_ascii_lowercase() }).collect();
+            s.replace_range(p..q, &seg);
+            "flip-case"
+        }
+        11 => {
+            // blank lines / trailing whitespace / missing final newline
+            match rng.below(4) {
+                0 => s.insert(0, '\n'),
+                1 => {
+                    if let Some((_, b)) = lines.first().copied() {
+                        s.insert_str(b, *rng.pick(&["\n", "\n\n", "\t\n", " \n"]));
+                    }
+                }
+                2 => {
+                    while s.ends_with('\n') || s.ends_with('\r') {
+                        s.pop();
+                    }
+                }
+                _ => {
+                    if let Some((_, b)) = lines.get(rng.below(lines.len().max(1) as u64) as usize).copied() {
+                        let at = if b > 0 && s[..b].ends_with('\n') { b - 1 } else { b };
+                        s.insert_str(at, *rng.pick(&[" ", "  ", "\t", "     ", " x"]));
+                    }
+                }
+            }
+            "blank-trailing"
+        }
+        12 => {
+            // add an argument (maybe a duplicate key) before some `]`
+            let occ: Vec<usize> = s.match_indices(']').map(|(i, _)| i).collect();
+            if !occ.is_empty() {
+                let i = *rng.pick(&occ);
+                let arg = *rng.pick(&[" id='1'", " name='x'", " ip='1.2.3.4'", " x=''", " ='v'", " a = 'b'", "\ty='z'", " q='\\''", " q='a\\b'", " q='it's'", " q=\"v\"", " q=v", " q", " q='v"]);
+                s.insert_str(i, arg);
+            }
+            "add-argument"
+        }
+        13 => {
+            // non-ASCII right after the indentation / inside a tag / next to a quote
+            let p = pick_pos(rng);
+            s.insert_str(p, *rng.pick(&["\u{212A}", "é", "名", "😀", "\u{120}", "\u{10A}", "\u{109}", "\u{301}"]));
+            "insert-non-ascii"
+        }
+        14 => {
+            // very deep indentation of one line
+            if !lines.is_empty() {
+                let (a, _) = *rng.pick(&lines);
+                let n = *rng.pick(&[5usize, 17, 64, 300]);
+                s.insert_str(a, &"\t".repeat(n));
+            }
+            "deep-indent"
+        }
+        _ => {
+            // unterminated / odd quoting
+            let occ: Vec<usize> = s.match_indices('\'').map(|(i, _)| i).collect();
+            if !occ.is_empty() {
+                let i = *rng.pick(&occ);
+                s.replace_range(i..i + 1, *rng.pick(&["", "''", "\\'", "\\", "\"", "'\\"]));
+            }
+            "quote-edit"
+        }
+    }
+}
+
+/// structural-error mutants of a well-formed tree: each MUST be rejected (C19 reject clause)
+fn structural_mutant(rng: &mut Rng, t: &Tree) -> Option<(&'static str, String)> {
+    let lay = *rng.pick(&LAYOUTS);
+    let text = render(lay, t);
+    let unit = if lay == Layout::Spaces { "    " } else { "\t" };
+    let lines = line_spans(&text);
+    match rng.below(7) {
+        0 | 1 => {
+            // wrong nesting depth: one line one level deeper or shallower
+            let idx: Vec<usize> = (0..lines.len()).collect();
+            let i = *rng.pick(&idx);
+            let (a, _) = lines[i];
+            let mut s = text.clone();
+            if rng.chance(1, 2) || !s[a..].starts_with(unit) {
+                s.insert_str(a, unit);
+                Some(("depth-deeper", s))
+            } else {
+                s.replace_range(a..a + unit.len(), "");
+                Some(("depth-shallower", s))
+            }
+        }
+        2 => {
+            // unknown type tag, or a known type where it does not belong
+            let (a, _) = *rng.pick(&lines);
+            let depth0 = text[a..].starts_with('[');
+            let i = a + text[a..].find('[')? + 1;
+            let end = text[i..].find(|c: char| c == ' ' || c == ']').map(|k| i + k)?;
+            let old = &text[i..end];
+            let rep = loop {
+                let r = *rng.pick(&["Router", "Net", "Switch", "Templates", "Template", "Networks", "Network", "IP", "Machines", "Machine", "Protocols", "Protocol", "Applications", "Application"]);
+                if !r.eq_ignore_ascii_case(old) {
+                    break r;
+                }
+            };
+            // a Template line at the top level is legal: skip those replacements
+            if rep == "Template" || (depth0 && (rep == "Networks" || rep == "Machines")) {
+                return None;
+            }
+            let mut s = text.clone();
+            s.replace_range(i..end, rep);
+            Some(("type-unknown-or-misplaced", s))
+        }
+        3 => {
+            // missing required section of a machine
+            if t.machs.is_empty() {
+                return None;
+            }
+            let mi = rng.below(t.machs.len() as u64) as usize;
+            let which = rng.below(3);
+            let mut s = String::new();
+            render_line(lay, 0, "Networks", &vec![], &mut s);
+            for n in &t.nets {
+                render_line(lay, 1, "Network", &n.opts, &mut s);
+                for ip in &n.ips {
+                    render_line(lay, 2, &ip.dt, &ip.opts, &mut s);
+                }
+            }
+            render_line(lay, 0, "Machines", &vec![], &mut s);
+            for (k, m) in t.machs.iter().enumerate() {
+                render_line(lay, 1, "Machine", &m.opts, &mut s);
+                for (w, (name, ls)) in [("Networks", &m.nets), ("Protocols", &m.prots), ("Applications", &m.apps)].iter().enumerate() {
+                    if k == mi && w as u64 == which {
+                        continue;
+                    }
+                    render_line(lay, 2, name, &vec![], &mut s);
+                    for l in ls.iter() {
+                        render_line(lay, 3, &l.dt, &l.opts, &mut s);
+                    }
+                }
+            }
+            Some(("missing-section", s))
+        }
+        4 => {
+            // duplicate network id inside the same [Networks] block
+            if t.nets.is_empty() {
+                return None;
+            }
+            let mut t2 = t.clone();
+            let src = rng.below(t.nets.len() as u64) as usize;
+            let mut dup = t.nets[src].clone();
+            dup.opts.retain(|e| e.0 == "id");
+            let at = rng.below(t2.nets.len() as u64 + 1) as usize;
+            t2.nets.insert(at, dup);
+            Some(("dup-id-same-block", render(lay, &t2)))
+        }
+        5 => {
+            // duplicate network id in another [Networks] block (before or after [Machines])
+            if t.nets.is_empty() {
+                return None;
+            }
+            let src = rng.below(t.nets.len() as u64) as usize;
+            let mut block = String::new();
+            render_line(lay, 0, "Networks", &vec![], &mut block);
+            render_line(lay, 1, "Network", &vec![("id".to_string(), get(&t.nets[src].opts, "id")?.to_string())], &mut block);
+            render_line(lay, 2, "IP", &vec![("ip".to_string(), "10.0.0.1".to_string())], &mut block);
+            let s = if rng.chance(1, 2) { format!("{}{}", text, block) } else { format!("{}{}", block, text) };
+            Some(("dup-id-other-block", s))
+        }
+        _ => {
+            // duplicate argument on some line that has arguments
+            let mut t2 = t.clone();
+            let mut slots: Vec<&mut Opts> = vec![];
+            for n in t2.nets.iter_mut() {
+                slots.push(&mut n.opts);
+                for l in n.ips.iter_mut() {
+                    slots.push(&mut l.opts);
+                }
+            }
+            for m in t2.machs.iter_mut() {
+                slots.push(&mut m.opts);
+                for l in m.nets.iter_mut().chain(m.prots.iter_mut()).chain(m.apps.iter_mut()) {
+                    slots.push(&mut l.opts);
+                }
+            }
+            let mut cands: Vec<&mut Opts> = slots.into_iter().filter(|o| !o.is_empty()).collect();
+            if cands.is_empty() {
+                return None;
+            }
+            let k = rng.below(cands.len() as u64) as usize;
+            let o = &mut cands[k];
+            let (key, _) = o[rng.below(o.len() as u64) as usize].clone();
+            let at = rng.below(o.len() as u64 + 1) as usize;
+            o.insert(at, (key, gen_val(rng, false)));
+            Some(("dup-argument", render(lay, &t2)))
+        }
+    }
+}
+
+// ------------------------------------------------------------------------------------------
+// executors
+// ------------------------------------------------------------------------------------------
+
+struct Cx<'a> {
+    /// recorded failures per ident (at most two each, so that frequent known ones cannot crowd
+    /// a rare new one out of the bounded failure list)
+    seen: HashMap<String, u32>,
+    out: &'a mut Out,
+    files: Files,
+    /// oracle for `parse` lines that follow a `render`: the tree they must mean
+    expect: Option<Tree>,
+    /// `Some(label)`: the next `parse` must be rejected
+    must_reject: Option<String>,
+    no_panic_oracle: bool,
+}
+
+impl<'a> Cx<'a> {
+    fn fail(&mut self, what: &str, ident: &str) {
+        let n = self.seen.entry(ident.to_string()).or_insert(0);
+        *n += 1;
+        if *n <= 2 {
+            self.out.fail(what, ident);
+        } else {
+            self.out.count("oracle_failures");
+            self.out.count("oracle_failures_not_listed");
+        }
+    }
+}
+
+fn exec_parse(cx: &mut Cx, op: &str, hexs: &str) {
+    let Some(text) = unhx(hexs) else { return cx.out.line(op, "bad-op") };
+    let o = real_parse(&mut cx.files, &text);
+    cx.out.line(op, &o.line());
+    cx.out.count(&format!("outcome.{}", o.class()));
+    match &o {
+        Outcome::Err(k, _, msg) => {
+            cx.out.count(&format!("err.{}", k));
+            if k == "unclassified" || k == "nom-other" || k == "argsFail" {
+                cx.fail(&format!("error message not classified (harness): {:?}", msg), "harness unclassified-error");
+            }
+        }
+        Outcome::Panic(site, ident, msg) => {
+            cx.out.count(&format!("panic.{}", site));
+            if cx.no_panic_oracle {
+                cx.fail(&format!("core_parser panicked on a text: {} ({}); text {:?}", ident, msg.chars().take(120).collect::<String>(), text.chars().take(200).collect::<String>()), ident);
+            }
+        }
+        Outcome::Ok(..) => {}
+    }
+    if let Some(t) = cx.expect.clone() {
+        let want = format!("ok {}", t.tokens(true));
+        if o.line() != want {
+            // values with four spaces / CR are rewritten by the normalisation: a finding of its own
+            let altered = t_has(&t, |s| s.contains("    ")) as u8 * 2 + t_has(&t, |s| s.contains('\r')) as u8;
+            let ident = match (altered, o.class()) {
+                (0, "ok") => "roundtrip differs".to_string(),
+                (0, c) => format!("roundtrip rejected {}", c),
+                (a, _) => format!("value-altered {}", ["", "cr", "four-spaces", "four-spaces+cr"][a as usize]),
+            };
+            cx.fail(&format!("a well-formed description does not parse back to itself: expected `{}` got `{}`", trunc(&want, 300), trunc(&o.line(), 300)), &ident);
+        }
+    }
+    if let Some(label) = cx.must_reject.take() {
+        if !matches!(o, Outcome::Err(..)) {
+            cx.fail(&format!("a description with a structural error ({}) was not rejected with an error: {} ; text {:?}", label, trunc(&o.line(), 200), trunc(&text, 400)), &format!("not-rejected {}", label));
+        }
+    }
+}
+
+fn t_has(t: &Tree, f: impl Fn(&str) -> bool) -> bool {
+    let o = |o: &Opts| o.iter().any(|(k, v)| f(k) || f(v));
+    t.nets.iter().any(|n| o(&n.opts) || n.ips.iter().any(|l| o(&l.opts)))
+        || t.machs.iter().any(|m| o(&m.opts) || m.nets.iter().chain(m.prots.iter()).chain(m.apps.iter()).any(|l| o(&l.opts)))
+}
+
+fn trunc(s: &str, n: usize) -> String {
+    if s.chars().count() <= n {
+        s.to_string()
+    } else {
+        s.chars().take(n).collect::<String>() + "…"
+    }
+}
+
+fn exec_line(cx: &mut Cx, l: &str) {
+    let w: Vec<&str> = l.split_whitespace().collect();
+    match w.first().copied() {
+        Some("render") if w.len() >= 3 => {
+            let (Some(lay), Some(t)) = (Layout::parse(w[1]), Tree::from_tokens(&w[2..])) else { return cx.out.line(l, "bad-op") };
+            let text = render(lay, &t);
+            cx.out.line(l, &format!("text {}", hx(&text)));
+            cx.expect = Some(t);
+        }
+        Some("expect-reject") if w.len() == 2 => {
+            cx.must_reject = Some(w[1].to_string());
+            cx.expect = None;
+            cx.out.line(l, "-");
+        }
+        Some("expect-none") => {
+            cx.expect = None;
+            cx.out.line(l, "-");
+        }
+        Some("parse") if w.len() == 2 => exec_parse(cx, l, w[1]),
+        Some("lex") if w.len() == 3 => {
+            let (Ok(n), Some(text)) = (w[1].parse::<i32>(), unhx(w[2])) else { return cx.out.line(l, "bad-op") };
+            let r = real_lex(&text, n);
+            cx.out.count(&format!("lex.{}", r.split(' ').next().unwrap_or("")));
+            cx.out.line(l, &r);
+        }
+        _ => cx.out.line(l, "bad-op"),
+    }
+}
+
+/// exhaustive check of the Unicode assumption of `uniLowerEq` / `lowerText` in the model
+fn lowercase_assumption(out: &mut Out) {
+    let mut odd = vec![];
+    for c in (0..=0x10FFFFu32).filter_map(char::from_u32) {
+        let l: Vec<char> = c.to_lowercase().collect();
+        if l.len() == 1 && l[0].is_ascii_lowercase() && !(c.is_ascii_alphabetic()) {
+            odd.push(c as u32);
+        }
+    }
+    out.notes.push(format!("non-ASCII chars whose to_lowercase() is one ASCII letter: {:x?} (model assumes exactly [212a])", odd));
+    if odd != vec![0x212A] {
+        out.begin_case(999_999_999);
+        out.line("assume-lowercase", "violated");
+        out.fail(&format!("Rust's char::to_lowercase maps {:x?} to ASCII letters; the model's uniLowerEq assumes only U+212A", odd), "harness lowercase-assumption");
+        out.end_case();
+    }
+}
+
+const RULE_PARSE: &str = "trees: 0..4 networks (unique ids, 1..4 IP lines) and 0..4 machines (1..3 lines per section), 0..4 arguments per line with keys/values drawn from the NDL vocabulary and from an exotic palette (spaces, quotes, \\' escapes, =, [, tabs, newlines, non-ASCII incl. U+212A and chars whose low byte is a separator); each rendered as tabs / 4 spaces / CRLF and parsed by the real core_parser; plus structural-error mutants that must be rejected and free text mutants; non-trivial = at least one network and one machine; distinct = hash of the op lines";
+
+fn case_tree(cx: &mut Cx, rng: &mut Rng, altered: bool) {
+    let mut t = gen_tree(rng, true);
+    if altered {
+        // F-C19-1: a value with a run of four spaces or a CR (the parser rewrites it)
+        let v = rng.pick(&["a    b", "x\r\ny", "        ", "tail    "]).to_string();
+        if let Some(m) = t.machs.first_mut() {
+            m.apps[0].opts.push(("message".into(), v));
+        } else if let Some(n) = t.nets.first_mut() {
+            n.ips[0].opts.push(("note".into(), v));
+        } else {
+            return;
+        }
+    }
+    if !t.nets.is_empty() && !t.machs.is_empty() {
+        cx.out.mark_nontrivial();
+    }
+    cx.out.count(&format!("tree.nets.{}", t.nets.len()));
+    cx.out.count(&format!("tree.machines.{}", t.machs.len()));
+    for lay in LAYOUTS {
+        let spec = format!("render {} {}", lay.name(), t.tokens(false));
+        exec_line(cx, &spec);
+        let text = render(lay, &t);
+        exec_line(cx, &format!("parse {}", hx(&text)));
+    }
+    exec_line(cx, "expect-none");
+    // the lexer alone on some of its lines, with trailing newlines and an arbitrary line number
+    let text = render(Layout::Tabs, &t);
+    let ls = line_spans(&text);
+    for _ in 0..2 {
+        let (a, b) = *rng.pick(&ls);
+        let l = text[a..b].trim_start_matches('\t').trim_end_matches('\n');
+        let nl = "\n".repeat(rng.range(0, 3) as usize);
+        let rest = *rng.pick(&["", "\t[IP]", "[Machines]\n", "x"]);
+        let n = *rng.pick(&[1i32, 2, 77, 2147483645, 2147483646, 2147483647]);
+        exec_line(cx, &format!("lex {} {}", n, hx(&format!("{}{}{}", l, nl, rest))));
+    }
+}
+
+fn case_structural(cx: &mut Cx, rng: &mut Rng) {
+    let t = gen_tree(rng, false);
+    for _ in 0..4 {
+        if let Some((label, text)) = structural_mutant(rng, &t) {
+            cx.out.count(&format!("reject.{}", label));
+            cx.out.mark_nontrivial();
+            exec_line(cx, &format!("expect-reject {}", label));
+            exec_line(cx, &format!("parse {}", hx(&text)));
+        }
+    }
+}
+
+fn case_mutants(cx: &mut Cx, rng: &mut Rng, per_case: u64) {
+    let exotic = rng.chance(1, 2);
+    let t = gen_tree(rng, exotic);
+    let base = render(*rng.pick(&LAYOUTS), &t);
+    for _ in 0..per_case {
+        let mut s = base.clone();
+        let mut labels = vec![];
+        for _ in 0..rng.range(1, 3) {
+            labels.push(mutate_once(rng, &mut s));
+        }
+        for l in &labels {
+            cx.out.count(&format!("mut.{}", l));
+        }
+        if s.chars().any(|c| !c.is_ascii()) {
+            cx.out.count("text.non-ascii");
+        }
+        cx.out.mark_nontrivial();
+        exec_line(cx, &format!("parse {}", hx(&s)));
+    }
+}
+
+/// hand-made texts: the A.6 observations, the two panic candidates, boundary shapes
+fn fixed_texts() -> Vec<(&'static str, String)> {
+    let base = "[Networks]\n\t[Network id='1']\n\t\t[IP range='1.2.3.4-5']\n[Machines]\n\t[Machine name='m']\n\t\t[Networks]\n\t\t\t[Network id='1']\n\t\t[Protocols]\n\t\t\t[Protocol name='UDP']\n\t\t[Applications]\n\t\t\t[Application name='capture']\n";
+    let mut v: Vec<(&'static str, String)> = vec![
+        ("empty", "".into()),
+        ("base", base.into()),
+        ("iptype", "[IPtype v='4']\n".into()),
+        ("iptype-nested", "[Networks]\n\t[Network id='1']\n\t\t[IPtype v='4']\n".into()),
+        ("kelvin-networks", "[Networ\u{212A}s]\n".into()),
+        ("kelvin-network", "[Networks]\n\t[Networ\u{212A} id='1']\n".into()),
+        ("kelvin-short", "[Networ\u{212A}]".into()),
+        ("dotted-i", "[\u{130}P]".into()),
+        ("long-s", "[Network\u{17F}]".into()),
+        ("template", "[Template name='t']\n[Networks]\n".into()),
+        ("blank-first", "\n[Networks]\n".into()),
+        ("blank-only", "\n\n".into()),
+        ("space-before-bracket", "[Networks ]\n".into()),
+        ("key-space", "[Networks]\n\t[Network id ='1']\n\t\t[IP]\n".into()),
+        ("newline-in-brackets", "[Networks\n]\n".into()),
+        ("arg-on-next-line", "[Networks]\n\t[Network\nid='1']\n\t\t[IP]\n".into()),
+        ("no-final-newline", base.trim_end().into()),
+        ("text-after-bracket", "[Networks] x\n".into()),
+        ("tab-after-text", "[Networks]\t\n".into()),
+        ("unterminated-quote", "[Networks]\n\t[Network id='1]\n".into()),
+        ("unterminated-bracket", "[Networks".into()),
+        ("only-open", "[".into()),
+        ("only-close", "]".into()),
+        ("empty-brackets", "[]".into()),
+        ("empty-value", "[Networks]\n\t[Network id='']\n\t\t[IP ip='']\n".into()),
+        ("empty-key", "[Networks]\n\t[Network ='1' id='2']\n\t\t[IP]\n".into()),
+        ("escape", "[Networks]\n\t[Network id='a\\'b']\n\t\t[IP]\n".into()),
+        ("backslash-end", "[Networks]\n\t[Network id='a\\']\n".into()),
+        ("backslash-other", "[Networks]\n\t[Network id='a\\b']\n".into()),
+        ("sep-low-byte", "[Networks]\n\t[Network\u{120}id='1']\n\t\t[IP\u{10A}a='b'\u{109}c='d']\n".into()),
+        ("non-ascii-after-tabs", "[Networks]\n\t\u{e9}[Network id='1']\n".into()),
+        ("non-ascii-instead-of-tab", "[Networks]\n\u{e9}[Network id='1']\n".into()),
+        ("deep", format!("[Networks]\n{}[Network id='1']\n", "\t".repeat(500))),
+        ("network-no-ip", "[Networks]\n\t[Network id='1']\n".into()),
+        ("networks-empty", "[Networks]\n[Machines]\n".into()),
+        ("machine-empty-section", "[Machines]\n\t[Machine]\n\t\t[Networks]\n\t\t[Protocols]\n\t\t\t[Protocol]\n\t\t[Applications]\n\t\t\t[Application]\n".into()),
+        ("section-twice", "[Machines]\n\t[Machine]\n\t\t[Networks]\n\t\t\t[Network]\n\t\t[Networks]\n\t\t\t[Network]\n".into()),
+        ("five-spaces", "[Networks]\n     [Network id='1']\n".into()),
+        ("cr-only", "[Networks]\r[Machines]\r".into()),
+        ("four-spaces-in-value", "[Networks]\n\t[Network id='a    b']\n\t\t[IP]\n".into()),
+        ("bom", "\u{feff}[Networks]\n".into()),
+        ("nul", "[Networks]\n\t[Network id='\u{0}']\n\t\t[IP]\n".into()),
+    ];
+    v.push(("many-newlines", format!("[Template]{}", "\n".repeat(5000))));
+    v
+}
+
+fn run_parse_like(args: &Args, c14: bool) {
+    let mut out = Out::new(&args.out);
+    let files = Files::new(&args.out);
+    let mut cx = Cx { seen: HashMap::new(), out: &mut out, files, expect: None, must_reject: None, no_panic_oracle: true };
+    if let Some(rp) = &args.replay {
+        cx.out.begin_case(0);
+        cx.out.mark_nontrivial();
+        for l in read_ops(rp) {
+            if !l.starts_with("case ") {
+                exec_line(&mut cx, &l);
+            }
+        }
+        cx.out.end_case();
+        drop(cx);
+        out.finish(RULE_PARSE);
+        return;
+    }
+    let mut rng = Rng::new(args.seed);
+    let mut c = 0u64;
+    // fixed texts first
+    for (name, text) in fixed_texts() {
+        cx.out.begin_case(c);
+        cx.out.count(&format!("fixed.{}", name));
+        exec_line(&mut cx, &format!("parse {}", hx(&text)));
+        cx.out.end_case();
+        c += 1;
+    }
+    if !c14 {
+        // the lexer's line counter at the i32 boundary (replay of the `lineOverflow` site)
+        cx.out.begin_case(c);
+        for (n, t) in [(2147483646, "[Template]\n"), (2147483647, "[Template]"), (2147483647, "[Template]\n"), (2147483646, "[Template]\n\n")] {
+            exec_line(&mut cx, &format!("lex {} {}", n, hx(t)));
+        }
+        cx.out.end_case();
+        c += 1;
+    }
+    let per_case: u64 = args.extra.get("mutants").and_then(|v| v.parse().ok()).unwrap_or(8);
+    for _ in 0..args.cases {
+        let mut r = rng.fork();
+        cx.out.begin_case(c);
+        if c14 {
+            case_mutants(&mut cx, &mut r, per_case);
+        } else {
+            match c % 8 {
+                0..=3 => case_tree(&mut cx, &mut r, false),
+                4 => case_tree(&mut cx, &mut r, true),
+                5 | 6 => case_structural(&mut cx, &mut r),
+                _ => case_mutants(&mut cx, &mut r, per_case),
+            }
+        }
+        cx.expect = None;
+        cx.must_reject = None;
+        cx.out.end_case();
+        c += 1;
+    }
+    drop(cx);
+    lowercase_assumption(&mut out);
+    out.finish(if c14 { "texts: valid renderings (three layouts) of generated trees with 1..3 random edits each: token/char insertion and deletion, truncation, per-line and whole-file indentation changes (tabs, 4 spaces, mixed, partial), CRLF, line duplication/deletion/move, type-tag replacement (incl. IPtype, U+212A spellings, case flips), blank lines / trailing whitespace / missing final newline, argument edits (duplicates, empty, unquoted, unterminated, backslashes), non-ASCII insertion (multi-byte chars, chars whose low byte is a separator), very deep indentation; plus 43 hand-made texts; oracle: never a panic; every case counts as non-trivial; distinct = hash of the op lines" } else { RULE_PARSE });
+}
 
 pub fn run(args: &Args) {
-    eprintln!("hfull: {} not implemented yet", args.prop);
-    std::process::exit(2);
+    match args.prop.as_str() {
+        "c19-parse" | "c19" => run_parse_like(args, false),
+        "c19-run" => run_sims(args),
+        p => {
+            eprintln!("hfull: unknown sub-command {}", p);
+            std::process::exit(2);
+        }
+    }
+}
+
+/// `c14-ndl` (routed here from props/c14.rs)
+pub fn run_c14_ndl(args: &Args) {
+    run_parse_like(args, true)
+}
+
+// ------------------------------------------------------------------------------------------
+// c19-run: generated *semantically* valid descriptions, really built and run
+// ------------------------------------------------------------------------------------------
+
+use elvis::applications::Capture;
+use elvis_core::ExitStatus;
+use std::time::Duration;
+
+/// fixed message length: a capture's concatenated bytes split back into messages
+const MSG_LEN: usize = 8;
+
+#[derive(Clone, Debug)]
+struct PlanNet {
+    id: String,
+    /// a.b.c.lo-hi
+    base: [u8; 3],
+    lo: u8,
+    hi: u8,
+    singles: Vec<[u8; 4]>,
+    as_subnet: bool,
+}
+
+#[derive(Clone, Debug)]
+enum Target {
+    Name(usize),
+    Addr(usize),
+}
+
+/// one semantically valid description plus what its author intends (the native oracle's side)
+struct Plan {
+    tree: Tree,
+    /// capturing machine name -> messages it must receive
+    intended: Vec<(String, Vec<String>)>,
+    pingpong: bool,
+    label: String,
+}
+
+fn ip_s(ip: [u8; 4]) -> String {
+    format!("{}.{}.{}.{}", ip[0], ip[1], ip[2], ip[3])
+}
+
+fn gen_plan(rng: &mut Rng, seed_tag: u64) -> Plan {
+    let o = |k: &str, v: &str| (k.to_string(), v.to_string());
+    // ---- networks ----
+    let n_nets = rng.range(1, 3) as usize;
+    let mut nets: Vec<PlanNet> = vec![];
+    let mut used_ids: Vec<String> = vec![];
+    for i in 0..n_nets {
+        let id = loop {
+            let c = rng.pick(&["1", "5", "3", "7", "net-a", "lan", "42", "backbone"]).to_string();
+            if !used_ids.contains(&c) {
+                break c;
+            }
+        };
+        used_ids.push(id.clone());
+        let lo = rng.range(1, 60) as u8;
+        let hi = lo + rng.range(12, 40) as u8;
+        let base = [*rng.pick(&[123u8, 12, 45, 77, 150]), 20 + i as u8, rng.range(0, 250) as u8];
+        let singles = (0..rng.range(0, 2)).map(|k| [base[0], base[1], base[2], 200 + k as u8]).collect();
+        nets.push(PlanNet { id, base, lo, hi, singles, as_subnet: false });
+    }
+    let mut tree = Tree::default();
+    for n in &nets {
+        let mut ips = vec![];
+        // the pool as one or two ranges
+        let mid = n.lo + (n.hi - n.lo) / 2;
+        if rng.chance(1, 2) {
+            ips.push(Leaf { dt: "IP".into(), opts: vec![o("range", &format!("{}.{}.{}.{}-{}", n.base[0], n.base[1], n.base[2], n.lo, n.hi))] });
+        } else {
+            ips.push(Leaf { dt: "IP".into(), opts: vec![o("range", &format!("{}.{}.{}.{}-{}", n.base[0], n.base[1], n.base[2], n.lo, mid))] });
+            ips.push(Leaf { dt: "IP".into(), opts: vec![o("range", &format!("{}.{}.{}.{}-{}", n.base[0], n.base[1], n.base[2], mid + 1, n.hi))] });
+        }
+        for s in &n.singles {
+            ips.push(Leaf { dt: "IP".into(), opts: vec![o("ip", &ip_s(*s))] });
+        }
+        let _ = n.as_subnet;
+        tree.nets.push(Net { opts: vec![o("id", &n.id)], ips });
+    }
+    // address pool per network, handed out once
+    let mut next_host: Vec<u8> = nets.iter().map(|n| n.lo).collect();
+    let mut take_ip = |net: usize| -> [u8; 4] {
+        let h = next_host[net];
+        next_host[net] += 1;
+        [nets[net].base[0], nets[net].base[1], nets[net].base[2], h]
+    };
+    // ---- protocols ----
+    let arp_mode = rng.below(4); // 0,1: none  2: explicit ARP everywhere  3: auto-protocol everywhere
+    let protocols = |rng: &mut Rng| -> (Vec<Leaf>, Option<(String, String)>) {
+        let p = |n: &str| Leaf { dt: "Protocol".into(), opts: vec![("name".to_string(), n.to_string())] };
+        match arp_mode {
+            2 => {
+                let mut v = vec![p("IPv4"), p("UDP"), p("ARP")];
+                let k = rng.below(3) as usize;
+                v.swap(0, k);
+                (v, None)
+            }
+            3 => (vec![p("UDP")], Some(("auto-protocol".to_string(), "true".to_string()))),
+            _ => {
+                if rng.chance(1, 2) {
+                    (vec![p("IPv4"), p("UDP")], None)
+                } else {
+                    (vec![p("UDP"), p("IPv4")], None)
+                }
+            }
+        }
+    };
+    let port_s = |rng: &mut Rng, p: u16| -> String {
+        if rng.chance(1, 2) {
+            format!("0x{:x}", p)
+        } else {
+            p.to_string()
+        }
+    };
+    let net_leaf = |id: &str| Leaf { dt: "Network".into(), opts: vec![("id".to_string(), id.to_string())] };
+
+    let pingpong = rng.chance(1, 6);
+    let mut intended: Vec<(String, Vec<String>)> = vec![];
+    let mut machs: Vec<Mach> = vec![];
+    let mut label = format!("nets={} arp={}", n_nets, arp_mode);
+    if pingpong {
+        let net = rng.below(n_nets as u64) as usize;
+        let (a, b) = (take_ip(net), take_ip(net));
+        let (pa, pb) = (rng.range(1024, 65000) as u16, rng.range(1024, 65000) as u16);
+        let by_name = rng.chance(1, 2);
+        for (k, (me, other, lp, rp, my_name, other_name)) in [(a, b, pa, pb, "ping", "pong"), (b, a, pb, pa, "pong", "ping")].iter().enumerate() {
+            let (prots, auto) = protocols(rng);
+            let mut mo = vec![o("name", my_name)];
+            if let Some(a) = auto {
+                mo.push(a);
+            }
+            let app = Leaf {
+                dt: "Application".into(),
+                opts: vec![
+                    o("name", "ping_pong"),
+                    o("starter", if k == 0 { *rng.pick(&["true", "t", "T", "True"]) } else { *rng.pick(&["false", "f", "no"]) }),
+                    o("ip", &ip_s(*me)),
+                    o("to", &if by_name { other_name.to_string() } else { ip_s(*other) }),
+                    o("local_port", &port_s(rng, *lp)),
+                    o("remote_port", &port_s(rng, *rp)),
+                ],
+            };
+            machs.push(Mach { opts: mo, nets: vec![net_leaf(&nets[net].id)], prots, apps: vec![app] });
+        }
+        label.push_str(" pingpong");
+    } else {
+        // receivers: captures and forwards; every receiver has (name, ip, port, nets)
+        struct Rx {
+            name: String,
+            ip: [u8; 4],
+            port: u16,
+            nets: Vec<usize>,
+            /// index of the receiver a forward passes its messages on to
+            fwd_to: Option<usize>,
+        }
+        let mut rxs: Vec<Rx> = vec![];
+        let n_caps = rng.range(1, 3) as usize;
+        for i in 0..n_caps {
+            let home = rng.below(n_nets as u64) as usize;
+            let mut ns = vec![home];
+            if n_nets > 1 && rng.chance(1, 3) {
+                let other = (home + 1 + rng.below(n_nets as u64 - 1) as usize) % n_nets;
+                if rng.chance(1, 2) {
+                    ns.push(other);
+                } else {
+                    ns.insert(0, other);
+                }
+            }
+            rxs.push(Rx { name: format!("recv{}", i + 1), ip: take_ip(home), port: rng.range(1024, 65000) as u16, nets: ns, fwd_to: None });
+        }
+        let n_fwd = if rng.chance(1, 2) { rng.range(1, 2) as usize } else { 0 };
+        let mut second_fwd = false;
+        for i in 0..n_fwd {
+            // a forward's first network must reach its target
+            let tgt = rng.below(rxs.len() as u64) as usize;
+            let first = *rng.pick(&rxs[tgt].nets);
+            let mut ns = vec![first];
+            if n_nets > 1 && rng.chance(1, 3) {
+                ns.push((first + 1) % n_nets);
+            }
+            let home = *rng.pick(&ns);
+            if arp_mode >= 2 && rxs[tgt].nets[0] != first {
+                second_fwd = true;
+            }
+            rxs.push(Rx { name: format!("fwd{}", i + 1), ip: take_ip(home), port: rng.range(1024, 65000) as u16, nets: ns, fwd_to: Some(tgt) });
+        }
+        // senders
+        let n_send = rng.range(1, 3) as usize;
+        let mut deliveries: Vec<Vec<String>> = vec![vec![]; rxs.len()];
+        let mut msg_no = 0u32;
+        let mut sender_machs: Vec<Mach> = vec![];
+        let mut twice = false;
+        let mut second = second_fwd;
+        for i in 0..n_send {
+            let count = if rng.chance(1, 2) { 1 } else { rng.range(2, 4) };
+            let first_net = rng.below(n_nets as u64) as usize;
+            let reachable: Vec<usize> = (0..rxs.len()).filter(|r| rxs[*r].nets.contains(&first_net)).collect();
+            if reachable.is_empty() {
+                continue;
+            }
+            let mut ns = vec![first_net];
+            if n_nets > 1 && rng.chance(1, 3) {
+                ns.push((first_net + 1) % n_nets);
+            }
+            // F-C19-3 probe: the network shared with the receiver is listed second
+            if n_nets > 1 && rng.chance(1, 40) {
+                let other = (first_net + 1) % n_nets;
+                if reachable.iter().any(|r| !rxs[*r].nets.contains(&other)) {
+                    ns = vec![other, first_net];
+                    second = true;
+                }
+            }
+            let mut apps = vec![];
+            // F-C19-2: a machine holds one protocol per Rust type, so of two applications of the
+            // same kind only the last one runs; generated rarely and labelled
+            let n_apps = if rng.chance(1, 40) { 2 } else { 1 };
+            if n_apps == 2 {
+                twice = true;
+            }
+            for _ in 0..n_apps {
+                let r = *rng.pick(&reachable);
+                if arp_mode >= 2 && rxs[r].nets[0] != first_net {
+                    // under ARP a machine answers on its first network only (same finding)
+                    second = true;
+                }
+                msg_no += 1;
+                let msg = format!("m{:03}-{:03}", seed_tag % 1000, msg_no % 1000);
+                assert_eq!(msg.len(), MSG_LEN);
+                let tgt = if rng.chance(1, 2) { Target::Name(r) } else { Target::Addr(r) };
+                let mut ao = vec![
+                    o("name", "send_message"),
+                    o("message", &msg),
+                    o("to", &match tgt {
+                        Target::Name(r) => rxs[r].name.clone(),
+                        Target::Addr(r) => ip_s(rxs[r].ip),
+                    }),
+                    o("port", &port_s(rng, rxs[r].port)),
+                ];
+                if count == 1 && rng.chance(1, 4) {
+                    ao.push(o("ip", &ip_s(take_ip(ns[0]))));
+                }
+                apps.push(Leaf { dt: "Application".into(), opts: ao });
+                // follow forwards to the capture
+                let mut at = r;
+                while let Some(nx) = rxs[at].fwd_to {
+                    at = nx;
+                }
+                for _ in 0..count {
+                    deliveries[at].push(msg.clone());
+                }
+            }
+            let (prots, auto) = protocols(rng);
+            let mut mo = vec![o("name", &format!("send{}", i + 1))];
+            if count > 1 || rng.chance(1, 3) {
+                mo.push(o("count", &count.to_string()));
+            }
+            if let Some(a) = auto {
+                mo.push(a);
+            }
+            sender_machs.push(Mach { opts: mo, nets: ns.iter().map(|n| net_leaf(&nets[*n].id)).collect(), prots, apps });
+        }
+        // a capture nobody sends to would wait forever: give it a sender of its own
+        for r in 0..n_caps {
+            if deliveries[r].is_empty() {
+                msg_no += 1;
+                let msg = format!("m{:03}-{:03}", seed_tag % 1000, msg_no % 1000);
+                let (prots, auto) = protocols(rng);
+                let mut mo = vec![o("name", &format!("extra{}", r + 1))];
+                if let Some(a) = auto {
+                    mo.push(a);
+                }
+                let first = if arp_mode >= 2 { rxs[r].nets[0] } else { rxs[r].nets[rng.below(rxs[r].nets.len() as u64) as usize] };
+                let ao = vec![o("name", "send_message"), o("message", &msg), o("to", &ip_s(rxs[r].ip)), o("port", &port_s(rng, rxs[r].port))];
+                sender_machs.push(Mach { opts: mo, nets: vec![net_leaf(&nets[first].id)], prots, apps: vec![Leaf { dt: "Application".into(), opts: ao }] });
+                deliveries[r].push(msg);
+            }
+        }
+        let factory = n_caps > 1 || rng.chance(1, 4);
+        let mut rx_machs: Vec<Mach> = vec![];
+        for (r, rx) in rxs.iter().enumerate() {
+            let (prots, auto) = protocols(rng);
+            let mut mo = vec![o("name", &rx.name)];
+            if let Some(a) = auto {
+                mo.push(a);
+            }
+            let app = match rx.fwd_to {
+                None => {
+                    let n = deliveries[r].len();
+                    let mut ao = vec![o("name", "capture"), o("ip", &ip_s(rx.ip)), o("port", &port_s(rng, rx.port))];
+                    if n != 1 || rng.chance(1, 2) {
+                        ao.push(o("type", "count"));
+                    }
+                    ao.push(o("message_count", &n.to_string()));
+                    if factory {
+                        ao.push(o("factory", "f1"));
+                    }
+                    intended.push((rx.name.clone(), deliveries[r].clone()));
+                    Leaf { dt: "Application".into(), opts: ao }
+                }
+                Some(t) => {
+                    let by_name = rng.chance(1, 2);
+                    Leaf {
+                        dt: "Application".into(),
+                        opts: vec![
+                            o("name", "forward"),
+                            o("ip", &ip_s(rx.ip)),
+                            o("to", &if by_name { rxs[t].name.clone() } else { ip_s(rxs[t].ip) }),
+                            o("local_port", &port_s(rng, rx.port)),
+                            o("remote_port", &port_s(rng, rxs[t].port)),
+                        ],
+                    }
+                }
+            };
+            rx_machs.push(Mach { opts: mo, nets: rx.nets.iter().map(|n| net_leaf(&nets[*n].id)).collect(), prots, apps: vec![app] });
+        }
+        // machine order: any interleaving of senders and receivers
+        machs = sender_machs;
+        for m in rx_machs {
+            let at = rng.below(machs.len() as u64 + 1) as usize;
+            machs.insert(at, m);
+        }
+        label.push_str(&format!(" caps={} fwd={} senders={}", n_caps, n_fwd, n_send));
+        if twice {
+            label.push_str(" same-kind-twice");
+        }
+        if second {
+            label.push_str(" shared-net-second");
+        }
+    }
+    // argument order within a line is arbitrary
+    for m in machs.iter_mut() {
+        for a in m.apps.iter_mut() {
+            for i in (1..a.opts.len()).rev() {
+                let j = rng.below(i as u64 + 1) as usize;
+                a.opts.swap(i, j);
+            }
+        }
+    }
+    tree.machs = machs;
+    Plan { tree, intended, pingpong, label }
+}
+
+fn status_name(s: &ExitStatus) -> String {
+    match s {
+        ExitStatus::Exited => "exited".into(),
+        ExitStatus::TimedOut => "timedout".into(),
+        ExitStatus::Status(n) => format!("status:{}", n),
+    }
+}
+
+/// parse (real `core_parser`), build (real generator) and run (real `run_internet`, paused
+/// clock) one description; returns the observed `expect …` line
+fn run_description(dir: &Path, tree: &Tree, lay: Layout) -> Result<String, String> {
+    std::fs::create_dir_all(dir).map_err(|e| e.to_string())?;
+    let path = dir.join(format!("run-{}.ndl", std::process::id()));
+    std::fs::write(&path, render(lay, tree)).map_err(|e| e.to_string())?;
+    let sim = core_parser(path.to_string_lossy().to_string()).map_err(|e| format!("parse error: {}", e))?;
+    // names of the machines in build order (count expands a machine)
+    let mut names: Vec<String> = vec![];
+    for m in &tree.machs {
+        let c: u64 = get(&m.opts, "count").and_then(|c| c.parse().ok()).unwrap_or(1);
+        for _ in 0..c {
+            names.push(get(&m.opts, "name").unwrap_or("").to_string());
+        }
+    }
+    let machines = elvis::ndl::verif_build_machines(sim);
+    if machines.len() != names.len() {
+        return Err(format!("generator built {} machines for {} described", machines.len(), names.len()));
+    }
+    let ms = machines.clone();
+    let status = block_on_mode(RtMode::Paused, async move { elvis_core::run_internet(&ms, Some(Duration::from_secs(5))).await });
+    let mut caps: Vec<(String, String)> = vec![];
+    for (m, name) in machines.iter().zip(names.iter()) {
+        if let Some(c) = m.protocol::<Capture>() {
+            let bytes = c.message().map(|m| m.to_vec()).unwrap_or_default();
+            let got = if bytes.is_empty() {
+                "none".to_string()
+            } else if bytes.len() % MSG_LEN != 0 {
+                format!("ragged:{}", hex(&bytes))
+            } else {
+                let mut ch: Vec<String> = bytes.chunks(MSG_LEN).map(hex).collect();
+                ch.sort();
+                ch.join(",")
+            };
+            caps.push((hx(name), got));
+        }
+    }
+    caps.sort();
+    let mut line = format!("expect {}", status_name(&status));
+    for (n, g) in caps {
+        line.push_str(&format!(" cap {} {}", n, g));
+    }
+    Ok(line)
+}
+
+fn intended_line(p: &Plan) -> String {
+    let mut caps: Vec<(String, String)> = p
+        .intended
+        .iter()
+        .map(|(n, ms)| {
+            let mut h: Vec<String> = ms.iter().map(|m| hx(m)).collect();
+            h.sort();
+            (hx(n), if h.is_empty() { "none".to_string() } else { h.join(",") })
+        })
+        .collect();
+    caps.sort();
+    let mut line = "expect exited".to_string();
+    for (n, g) in caps {
+        line.push_str(&format!(" cap {} {}", n, g));
+    }
+    line
+}
+
+const RULE_RUN: &str = "descriptions: 1..3 networks (range / single-ip entries), 1..3 capture machines (count type, shared factory when several), 0..2 forwards (chains), 1..3 sender machines with count 1..4 and 1..2 send_message applications wired by name or by address, or a ping_pong pair; IPv4+UDP in either order, optionally ARP everywhere (explicit or auto-protocol); second networks on some machines; rendered in a random layout, parsed by core_parser, built by the NDL generator, run by run_internet on a paused clock (5 s virtual timeout) in a worker process; non-trivial = a forward, a count > 1 or two captures; distinct = hash of the run line";
+
+fn run_one_case(spec: &str, dir: &Path) -> CaseReport {
+    let mut rep = CaseReport::default();
+    let (tree, intended, label, lay): (Tree, Option<String>, String, Layout);
+    if let Some(rest) = spec.strip_prefix("gen ") {
+        let mut it = rest.split_whitespace();
+        let id: u64 = it.next().and_then(|x| x.parse().ok()).unwrap_or(0);
+        let seed: u64 = it.next().and_then(|x| x.parse().ok()).unwrap_or(1);
+        let mut rng = Rng::new(seed);
+        let p = gen_plan(&mut rng, id);
+        lay = *rng.pick(&LAYOUTS);
+        intended = Some(intended_line(&p));
+        label = p.label.clone();
+        rep.nontrivial = label.contains("fwd=1") || label.contains("fwd=2") || p.tree.machs.iter().any(|m| get(&m.opts, "count").map_or(false, |c| c != "1")) || p.intended.len() > 1;
+        rep.count(format!("layout.{}", lay.name()));
+        rep.count(if p.pingpong { "kind.pingpong" } else { "kind.capture" });
+        for part in label.split(' ') {
+            rep.count(format!("plan.{}", part));
+        }
+        tree = p.tree;
+    } else if let Some(rest) = spec.strip_prefix("replay ") {
+        let w: Vec<&str> = rest.split_whitespace().collect();
+        match (w.first().copied(), Tree::from_tokens(w.get(1..).unwrap_or(&[]))) {
+            (Some("run"), Some(t)) => {
+                tree = t;
+                intended = None;
+                label = "replay".into();
+                lay = Layout::Tabs;
+                rep.nontrivial = true;
+            }
+            _ => {
+                rep.line(rest, "bad-op");
+                return rep;
+            }
+        }
+    } else {
+        rep.line(spec, "bad-op");
+        return rep;
+    }
+    // descriptions of the two recorded finding classes are judged by the native oracle only: the
+    // Lean spec says what should happen, the implementation is known to differ
+    let known_class = label.contains("same-kind-twice") || label.contains("shared-net-second");
+    let op = format!("{} {}", if known_class { "run-known" } else { "run" }, tree.tokens(false));
+    match run_description(dir, &tree, lay) {
+        Ok(observed) => {
+            rep.count(format!("status.{}", observed.split(' ').nth(1).unwrap_or("")));
+            if let Some(want) = intended {
+                if observed != want {
+                    let ident = if label.contains("same-kind-twice") {
+                        "same-kind-applications only-last-runs"
+                    } else if label.contains("shared-net-second") {
+                        "shared-network-listed-second not-delivered"
+                    } else if !observed.starts_with("expect exited") {
+                        "run-did-not-exit"
+                    } else {
+                        "delivery-mismatch"
+                    };
+                    rep.fail(format!("running a valid description ({}): intended `{}`, observed `{}`; description:\n{}", label, want, observed, render(Layout::Tabs, &tree)), ident);
+                }
+            } else if !observed.starts_with("expect exited") {
+                rep.fail(format!("replayed description did not end with the normal exit status: `{}`", observed), "run-did-not-exit");
+            }
+            rep.line(op, if known_class { "not-compared".to_string() } else { observed });
+        }
+        Err(e) => {
+            rep.fail(format!("a valid description ({}) could not be run: {}; description:\n{}", label, e, render(Layout::Tabs, &tree)), "run-setup-error");
+            rep.line(op, format!("error {}", e.chars().take(80).collect::<String>().replace(' ', "_").replace('\n', "_")));
+        }
+    }
+    rep
+}
+
+fn run_sims(args: &Args) {
+    let dir = args.out.join("ndl-tmp");
+    if is_worker(args) {
+        // the parent passes the scratch directory through the environment
+        let d = std::env::var("C19_TMP").map(PathBuf::from).unwrap_or_else(|_| std::env::temp_dir().join("c19-run"));
+        worker_loop(|spec| run_one_case(spec, &d));
+        return;
+    }
+    std::env::set_var("C19_TMP", &dir);
+    let mut out = Out::new(&args.out);
+    let specs: Vec<String> = if let Some(rp) = &args.replay {
+        read_ops(rp).into_iter().filter(|l| l.starts_with("run ") || l.starts_with("run-known ")).map(|l| format!("replay {}", l.replacen("run-known ", "run ", 1))).collect()
+    } else {
+        let mut rng = Rng::new(args.seed);
+        (0..args.cases).map(|c| format!("gen {} {}", c, rng.next())).collect()
+    };
+    let mut seen: HashMap<String, u32> = HashMap::new();
+    for (c, o) in run_cases(&args.prop, &specs, default_workers(), 20, 90).iter().enumerate() {
+        out.begin_case(c as u64);
+        match o {
+            CaseOutcome::Done(rep) => {
+                // at most two listed failures per identity (the list is bounded)
+                let mut rep = rep.clone();
+                rep.fails.retain(|f| {
+                    let n = seen.entry(f.1.clone()).or_insert(0);
+                    *n += 1;
+                    if *n > 2 {
+                        out.count("oracle_failures");
+                        out.count("oracle_failures_not_listed");
+                    }
+                    *n <= 2
+                });
+                rep.emit(&mut out)
+            }
+            died => {
+                let (mut line, mut ident) = died_ident(died);
+                let stderr = if let CaseOutcome::Died { stderr, .. } = died { stderr.chars().take(600).collect::<String>() } else { String::new() };
+                // regenerate the description the dead worker was running, so the case can be replayed
+                let op = match specs[c].strip_prefix("gen ") {
+                    Some(rest) => {
+                        let mut it = rest.split_whitespace();
+                        let id: u64 = it.next().and_then(|x| x.parse().ok()).unwrap_or(0);
+                        let seed: u64 = it.next().and_then(|x| x.parse().ok()).unwrap_or(1);
+                        let p = gen_plan(&mut Rng::new(seed), id);
+                        if p.label.contains("shared-net-second") {
+                            ident = "shared-network-listed-second not-delivered".into();
+                        }
+                        if p.label.contains("shared-net-second") || p.label.contains("same-kind-twice") {
+                            line = "not-compared".into();
+                        }
+                        format!("{} {}", if p.label.contains("shared-net-second") || p.label.contains("same-kind-twice") { "run-known" } else { "run" }, p.tree.tokens(false))
+                    }
+                    None => specs[c].trim_start_matches("replay ").to_string(),
+                };
+                out.line(&op, &line);
+                out.count("died");
+                out.fail(&format!("building or running a valid description crashed the process: {} ; spec `{}` ; stderr: {}", ident, specs[c], stderr), &ident);
+            }
+        }
+        out.end_case();
+    }
+    out.finish(RULE_RUN);
 }
